@@ -32,7 +32,7 @@ pub struct Cont {
 
 pub type VarElem = List<u8, typenum::U8>;
 /// an element that is itself a multi-leaf milhouse list: hashing it forks with rayon
-pub type NestElem = List<u64, typenum::U16>;
+pub type NestElem = List<u64, typenum::U1024>;
 
 pub trait Kind:
     Value + Send + Sync + Default + Serialize + DeserializeOwned + std::fmt::Debug + 'static
@@ -994,6 +994,9 @@ fn make_runner(kind: &str, n: &str, m: &str) -> Option<Box<dyn Runner>> {
         ("u64", "9223372036854775808", m) => maps!(u64, U9223372036854775808, m),
         ("h256", "9223372036854775808", m) => maps!(Hash256, U9223372036854775808, m),
         ("u64", "1152921504606846976", m) => maps!(u64, U1152921504606846976, m),
+        // tree depth exactly 48: the last level covered by the ZERO_HASHES table
+        ("u64", "1125899906842624", m) => maps!(u64, U1125899906842624, m),
+        ("h256", "281474976710656", m) => maps!(Hash256, U281474976710656, m),
         _ => None,
     }
 }
